@@ -18,6 +18,7 @@ type RunResult struct {
 	Steps                                []StepRec
 	SchedHash                            uint64
 	Overrun                              bool
+	Abandoned                            bool     // (preemption profiles) step limit reached without a deadlock: the run is not judged
 	States                               []uint64 // abstract state hash after every step
 	Between                              []string // invariant failures noticed between steps
 	Gets, Puts, Reuses, Drops, DoublePut int
@@ -102,6 +103,7 @@ func RunConcurrent(sc *Scenario) *RunResult {
 	res.Steps = s.Steps
 	res.SchedHash = s.ScheduleHash()
 	res.Overrun = !ok
+	res.Abandoned = s.Abandoned(sc)
 	res.Gets, res.Puts, res.Reuses, res.Drops, res.DoublePut = poolStats()
 	prev := -1
 	for _, st := range s.Steps {
